@@ -94,6 +94,7 @@ func TestCheck(t *testing.T) {
 	layer1Concurrent(r)
 
 	layer2Logical(r)
+	layer2AllowlistUpdates(r)
 	layer2KeyMask(r)
 	layer2Window(r)
 	layer2Expiry(r)
@@ -121,6 +122,8 @@ func TestCheck(t *testing.T) {
 	r.Require("l2_keymask_same_subnet_drop", 100)
 	r.Require("l2_keymask_other_subnet_pass", 100)
 	r.Require("l2_allowlisted_queries", 100)
+	r.Require("l2_persistent_allowlisted_pass_with_empty_dynamic", 40)
+	r.Require("l5_backend_persistent_pass_after_empty_refresh", 10)
 	r.Require("l2_any_refused", 50)
 	r.Require("l2_countresp_events", 100)
 	r.Require("l2_window_slid_out_pass", 10)
@@ -1209,9 +1212,12 @@ func logicalCase(r *vkit.Run, i int) {
 			size := []int{est - 1, est, est + 1, 2*est - 1, 2 * est, 3*est + 5, 30}[g.IntN(7)]
 			m.countResp(ip, size)
 		case x < 13:
-			if len(m.dyn) == 1 {
+			switch len(m.dyn) {
+			case 1:
 				m.updateDynamic([]netip.Prefix{c.Dynamic[0], togglePfx})
-			} else {
+			case 2:
+				m.updateDynamic(nil) // an empty dynamic list; the persistent one stays
+			default:
 				m.updateDynamic(c.Dynamic[:1])
 			}
 		default:
@@ -1227,6 +1233,69 @@ func logicalCase(r *vkit.Run, i int) {
 		cnt = fmt.Sprint(c.Count)
 	}
 	m.finish(fmt.Sprintf("L2logical/n%d,%d/k%d,%d/c%s/e%d/any%v/%d", c.N4, c.N6, c.K4, c.K6, cnt, c.Est, c.RefuseANY, i))
+}
+
+// ---- family: dynamic allow-list updates, including the empty list
+
+func layer2AllowlistUpdates(r *vkit.Run) {
+	cases := r.N(24, 160)
+	for i := 0; i < cases; i++ {
+		guard(r, "backoff-allowlist-updates", i, func() { allowlistUpdatesCase(r, i) })
+	}
+}
+
+// allowlistUpdatesCase: a non-empty persistent list and the dynamic list going
+// non-empty -> empty -> non-empty (-> empty ...); after every update a client of
+// the persistent list, a client of the dynamic list and an ordinary client are
+// probed with more queries than the limit.
+func allowlistUpdatesCase(r *vkit.Run, i int) {
+	g := r.Rand("l2alupd", i)
+	n := uint(1 + g.IntN(3))
+	c := bcfg{N4: n, N6: n, I4: hour, I6: hour, Period: hour, Duration: hour, K4: 24, K6: 48, Count: noBackoff, Est: 512, RefuseANY: g.IntN(2) == 0}
+	if g.IntN(2) == 0 {
+		c.Count = uint(1 + g.IntN(3))
+	}
+	v6 := i%3 == 2
+	mk := func() (netip.Addr, netip.Prefix) {
+		a, bits := rand4(g), 16+g.IntN(17)
+		if v6 {
+			a, bits = rand6(g), 32+g.IntN(97)
+		}
+		p, _ := a.Prefix(bits)
+		return a, p
+	}
+	pers, persP := mk()
+	dyn, dynP := mk()
+	c.Persistent = []netip.Prefix{persP}
+	startsEmpty := i%4 == 3
+	if !startsEmpty {
+		c.Dynamic = []netip.Prefix{dynP}
+	}
+	m := newMon(r, "allowlist-updates", i, c)
+	probe := func(afterEmpty bool) {
+		ord, _ := mk()
+		for _, ip := range []netip.Addr{pers, dyn, ord} {
+			for j := 0; j < int(n)+2; j++ {
+				m.query(ip, dns.TypeA)
+				if afterEmpty && ip == pers && j >= int(n) && m.last.mustPass && !m.last.drop {
+					r.Bucket("l2_persistent_allowlisted_pass_with_empty_dynamic", 1)
+				}
+			}
+		}
+	}
+	probe(startsEmpty)
+	seq := [][]netip.Prefix{nil, {dynP}, nil, {dynP, persP}}
+	if startsEmpty {
+		seq = [][]netip.Prefix{{dynP}, nil, {dynP}}
+	}
+	for _, upd := range seq {
+		m.updateDynamic(upd)
+		probe(len(upd) == 0)
+	}
+	if i == 0 {
+		r.Sample(map[string]any{"layer": 2, "family": "allowlist-updates", "config": c.witness(), "first_ops": m.trace[:min(len(m.trace), 24)]})
+	}
+	m.finish(fmt.Sprintf("L2alupd/n%d/v6=%v/startsEmpty=%v", n, v6, startsEmpty))
 }
 
 // ---- family: key masks for every prefix length
